@@ -901,7 +901,7 @@ Proof. vm_compute. reflexivity. Qed.
                 if final is not None:
                     want = ['good', sorted(final.items()), tend + T]
                     got = S2.get(rid)
-                    if got is None or [got[0], [tuple(x) for x in got[1]], got[2]] != \
+                    if got is None or got[0] != 'good' or [got[0], [tuple(x) for x in got[1]], got[2]] != \
                             [want[0], want[1], want[2]]:
                         why = 'stored under %r: %r, expected data %r with expiry %s' % (rid, got, want[1], want[2])
                         continue
